@@ -14,10 +14,10 @@ class Spec:
     assumptions = ["sources are edited only between commands and every edit changes mtime",
                    "scripts are deterministic functions of the files they declare",
                    "-j1, one invocation at a time"]
-    checks = {"content", "ood-after", "fs"}
+    checks = {"content", "ood-after"}
 
     def cases(self, tier):
-        return 480 if tier == "quick" else 8000
+        return 1600 if tier == "quick" else 16000
 
     def strategy(self, tier):
         o = {"p_csum": 35}
